@@ -16,6 +16,9 @@ func main() {
 		fmt.Println("usage: vcheck <Cxx> [quick|thorough] [--replay file]")
 		os.Exit(2)
 	}
+	if os.Args[1] == "worker" && len(os.Args) == 5 {
+		os.Exit(core.WorkerMain(os.Args[2], os.Args[3], os.Args[4]))
+	}
 	id := os.Args[1]
 	tier := "quick"
 	replay := ""
